@@ -211,8 +211,14 @@ package driver
 
 // ---- C20 / C10: reading stored records (util.go, secrets.go, cfgmaps.go)
 
+// (the three `marks` clauses are free postconditions — assumed by the callers, not checked: json.Unmarshal
+// decodes into the zero-valued release declared in decodeRelease and into objects it allocates, so no
+// release or label map that existed before the call is written)
 //@ func decodeRelease
 //@   props C20 C10
+//@   marks err == nil ==> fresh(result)
+//@   marks forall r *rspb.Release :: !fresh(r) ==> r.Labels == old(r.Labels)
+//@   marks forall mm gomap[string]string, k string :: !fresh(mm) ==> has(mm, k) == old(has(mm, k)) && mm[k] == old(mm[k])
 //@   ensures [result-iff-no-error] (err == nil) == (result != nil)
 //@   ensures [whole-payload-decoded] err == nil ==> GjsonSource == b64d(data) || GjsonSource == gunzip(b64d(data))
 
@@ -229,26 +235,39 @@ package driver
 // ---- C20 / C10: listing and querying stored records — a record that does not decode is skipped
 // (never dereferenced), the others are returned; no nil release is ever handed back
 
+// ---- C10: a release read back carries the labels it was stored with — not the driver's own
+// bookkeeping labels (Get filters them; the memory driver never adds them)
+//@ ghost func sysKey(k string) bool = k == "name" || k == "owner" || k == "status" || k == "version" || k == "createdAt" || k == "modifiedAt"
+//@ ghost func userLabelsOnly(r *rspb.Release) bool = forall k string :: has(r.Labels, k) ==> !sysKey(k)
+
 //@ func (*Secrets).List
 //@   props C20 C10
+//@   ensures [labels-as-stored] [C10] forall q int :: 0 <= q && q < len(result0) ==> userLabelsOnly(result0[q])
+//@   loop 1 invariant [labels-as-stored] [C10] forall q int :: 0 <= q && q < len(results) ==> userLabelsOnly(results[q])
 //@   requires secrets != nil && secrets.impl != nil
 //@   ensures [no-nil-results] forall q int :: 0 <= q && q < len(result0) ==> result0[q] != nil
 //@   loop 1 invariant [no-nil-results] forall q int :: 0 <= q && q < len(results) ==> results[q] != nil
 
 //@ func (*Secrets).Query
 //@   props C20 C10
+//@   ensures [labels-as-stored] [C10] forall q int :: 0 <= q && q < len(result0) ==> userLabelsOnly(result0[q])
+//@   loop 2 invariant [labels-as-stored] [C10] forall q int :: 0 <= q && q < len(results) ==> userLabelsOnly(results[q])
 //@   requires secrets != nil && secrets.impl != nil
 //@   ensures [no-nil-results] forall q int :: 0 <= q && q < len(result0) ==> result0[q] != nil
 //@   loop 2 invariant [no-nil-results] forall q int :: 0 <= q && q < len(results) ==> results[q] != nil
 
 //@ func (*ConfigMaps).List
 //@   props C20 C10
+//@   ensures [labels-as-stored] [C10] forall q int :: 0 <= q && q < len(result0) ==> userLabelsOnly(result0[q])
+//@   loop 1 invariant [labels-as-stored] [C10] forall q int :: 0 <= q && q < len(results) ==> userLabelsOnly(results[q])
 //@   requires cfgmaps != nil && cfgmaps.impl != nil
 //@   ensures [no-nil-results] forall q int :: 0 <= q && q < len(result0) ==> result0[q] != nil
 //@   loop 1 invariant [no-nil-results] forall q int :: 0 <= q && q < len(results) ==> results[q] != nil
 
 //@ func (*ConfigMaps).Query
 //@   props C20 C10
+//@   ensures [labels-as-stored] [C10] forall q int :: 0 <= q && q < len(result0) ==> userLabelsOnly(result0[q])
+//@   loop 2 invariant [labels-as-stored] [C10] forall q int :: 0 <= q && q < len(results) ==> userLabelsOnly(results[q])
 //@   requires cfgmaps != nil && cfgmaps.impl != nil
 //@   ensures [no-nil-results] forall q int :: 0 <= q && q < len(result0) ==> result0[q] != nil
 //@   loop 2 invariant [no-nil-results] forall q int :: 0 <= q && q < len(results) ==> results[q] != nil
